@@ -22,6 +22,7 @@ Sparse-matrix primitives used by the definitions that `tools/rs2lean_fn.py` gene
 
 Target `fn:trans` (trans.rs) uses, besides these, the model's `SpMat.id`, `SpMat.mul`, `SpMat.mulVec`, `fromEntries`,
 `fromRowPerm`, `fromColPerm` directly (functions of other files; the last three are tied to sp_mat.rs by `fn:spmat`).
+Target `fn:spvec` (sp_vec.rs): `SpVec { inner }` ↦ `Sp.vec_of_inner`, `v.inner` ↦ `Sp.vec_inner`, `v[i] = x` ↦ `Sp.list_set`.
 -/
 namespace Yuiv.Rust
 open Yuiv Res
@@ -34,6 +35,8 @@ def iter (A : C13.SpMat R) : List (Nat × Nat × R) := A.triplets
 def nnz (A : C13.SpMat R) : Nat := A.cols.flatten.length
 def disassemble (A : C13.SpMat R) : List Nat × List Nat × List R := A.disassemble
 def vec_inner (v : C13.SpVec R) : C13.SpMat R := v.toMat
+/-- the struct literal `SpVec { inner }`: dimension and first column of `inner` (`SpVec::new` asserts `ncols == 1`) -/
+def vec_of_inner (A : C13.SpMat R) : C13.SpVec R := ⟨A.nrows, A.cols.getD 0 []⟩
 def zero (shape : Nat × Nat) : C13.SpMat R := C13.SpMat.zero shape.1 shape.2
 def range_contains (r : Nat × Nat) (i : Nat) : Bool := decide (r.1 ≤ i) && decide (i < r.2)
 /-- `SpMat::is_id`: square, every stored diagonal entry `1`, every stored off-diagonal entry `0` -/
@@ -62,6 +65,10 @@ def list_get {β : Type} (l : List β) (i : Nat) : Res β :=
   match l[i]? with
   | some x => ok x
   | none => panic
+
+/-- `v[i] = x` on a `Vec` (index panic) -/
+def list_set {β : Type} (l : List β) (i : Nat) (x : β) : Res (List β) :=
+  if i < l.length then ok (l.set i x) else panic
 
 def enumFrom {β : Type} : Nat → List β → List (Nat × β)
   | _, [] => []
